@@ -51,10 +51,28 @@ type BodyCase struct {
 	Old    uint64   `json:"old"`
 	Hashes [][]byte `json:"hashes"`
 	Cp     []byte   `json:"cp"`
+	CpPad  int      `json:"cp_pad,omitempty"` // >0: this many further deterministic bytes follow Cp (checkpoints up to several MiB without megabytes of case text)
 	Writer string   `json:"writer"` // harness | feedbastion
 	Chunk  int      `json:"chunk,omitempty"` // >0: the body is delivered to the parser in reads of at most this many bytes
 	Defect string   `json:"defect,omitempty"`
 	Raw    []byte   `json:"raw,omitempty"`
+}
+
+// fullCp is the checkpoint of a round-trip case: Cp followed by CpPad pattern bytes.
+func (c *BodyCase) fullCp() []byte {
+	if c.CpPad <= 0 {
+		return c.Cp
+	}
+	out := make([]byte, 0, len(c.Cp)+c.CpPad)
+	out = append(out, c.Cp...)
+	for i := 0; i < c.CpPad; i++ {
+		b := byte('a' + (i*7+i/251)%26)
+		if i%97 == 96 {
+			b = '\n'
+		}
+		out = append(out, b)
+	}
+	return out
 }
 
 func writeBody(old uint64, hashes [][]byte, cp []byte, writer string) []byte {
@@ -189,7 +207,7 @@ func runBodyCase(c *BodyCase, st *vlib.Stats) (nt bool, classes []string, err er
 	var body []byte
 	switch c.Kind {
 	case "roundtrip":
-		body = writeBody(c.Old, c.Hashes, c.Cp, c.Writer)
+		body = writeBody(c.Old, c.Hashes, c.fullCp(), c.Writer)
 	default:
 		body = c.Raw
 	}
@@ -206,11 +224,17 @@ func runBodyCase(c *BodyCase, st *vlib.Stats) (nt bool, classes []string, err er
 	case "roundtrip":
 		nontrivial := len(c.Hashes) >= 1 && bytes.Contains(c.Cp, []byte("\n\n"))
 		cls := fmt.Sprintf("roundtrip:%s:hashes=%d", c.Writer, min(len(c.Hashes), 3))
+		if c.CpPad > 0 {
+			cls += ":bigcp"
+			if len(body) > 1<<20 {
+				cls += ">1MiB"
+			}
+		}
 		if err != nil {
 			return nontrivial, []string{cls}, fmt.Errorf("well-formed body (old=%d, %d hashes, %d checkpoint bytes) refused: %v", c.Old, len(c.Hashes), len(c.Cp), err)
 		}
-		if gotOld != c.Old || !hashesEqual(gotHashes, c.Hashes) || !bytes.Equal(gotCp, c.Cp) {
-			return nontrivial, []string{cls}, fmt.Errorf("body does not parse back: wrote (old=%d, %d hashes, cp %q), read (old=%d, %d hashes, cp %q)", c.Old, len(c.Hashes), c.Cp, gotOld, len(gotHashes), gotCp)
+		if want := c.fullCp(); gotOld != c.Old || !hashesEqual(gotHashes, c.Hashes) || !bytes.Equal(gotCp, want) {
+			return nontrivial, []string{cls}, fmt.Errorf("body does not parse back: wrote (old=%d, %d hashes, cp of %d bytes %q), read (old=%d, %d hashes, cp of %d bytes %q)", c.Old, len(c.Hashes), len(want), trunc(want), gotOld, len(gotHashes), len(gotCp), trunc(gotCp))
 		}
 		return nontrivial, []string{cls}, nil
 	case "malformed":
@@ -382,6 +406,13 @@ func TestC11Body(t *testing.T) {
 			c = &BodyCase{Kind: "roundtrip", Old: genOld(rt), Hashes: genHashes(rt, 1), Cp: genCpBytes(rt), Writer: rapid.SampledFrom([]string{"harness", "feedbastion"}).Draw(rt, "writer")}
 			if rapid.Bool().Draw(rt, "chunked") {
 				c.Chunk = rapid.SampledFrom([]int{1, 2, 7, 16, 64, 100, 1000, 4095, 4096, 4097}).Draw(rt, "chunk")
+			}
+			// "any checkpoint bytes": now and then a checkpoint far beyond any buffer size
+			if vlib.Pct(rt, 4, "bigcp") {
+				c.CpPad = rapid.SampledFrom([]int{3000, 4096, 5000, 16 << 10, 65535, 65536, 1<<20 - 4200, 1<<20 - 1, 1 << 20, 1<<20 + 1, 2 << 20, 5 << 20}).Draw(rt, "cppad") + rapid.IntRange(-40, 40).Draw(rt, "cppadj")
+				if c.Chunk > 0 && c.Chunk < 1000 {
+					c.Chunk = 4096
+				}
 			}
 		case 4, 5, 6:
 			c = genMalformed(rt)
